@@ -1,4 +1,5 @@
 """C01 - trades honour both limits; one price per round, set by the resting side."""
+import math
 import numbers
 
 from .. import taps
@@ -54,6 +55,29 @@ class C01Monitor(BookTracker):
         self.res = res
         self.drive = drive
         self.logger_prices = {}
+        self.handed = {}     # id(order object) -> limit price as it was handed to the market
+        self.limit_of = {}   # (market id, order id) -> that price
+
+    def on_other(self, ev):
+        if ev["k"] == "add_call":
+            self.handed[id(ev["order"])] = (ev["order"], ev["snap"].get("price"))
+
+    def on_accept(self, ev, book, so):
+        h = self.handed.pop(id(ev["order"]), None)
+        if h is not None and h[0] is ev["order"] and so is not None and not so.is_market and h[1] is not None:
+            self.limit_of[(book.market_id, so.oid)] = h[1]
+            if h[1] != so.price:
+                self.res.count("class/limit_moved_at_acceptance")
+
+    def written_limit(self, book, so, tick):
+        """the limit as written by the submitter (the accepted price may differ by tick rounding, C19); with a tick
+        that is not a power of two the grid itself is only exact up to a few ulp."""
+        p = self.limit_of.get((book.market_id, so.oid))
+        if p is None:
+            return None, 0.0
+        m, _ = math.frexp(float(tick))
+        slack = 0.0 if m == 0.5 else 4 * math.ulp(max(abs(float(p)), float(tick)))
+        return float(p), slack
 
     def on_round(self, ev, book, pre, fills):
         res = self.res
@@ -101,6 +125,18 @@ class C01Monitor(BookTracker):
             if not s.is_market and log.price < s.price:
                 res.violation("b", "price-below-sell-limit", witness())
                 bad = True
+            if not bad:
+                for so, sign, mech in ((b, 1, "price-above-the-limit-the-buyer-wrote"),
+                                       (s, -1, "price-below-the-limit-the-seller-wrote")):
+                    if so.is_market:
+                        continue
+                    wl, slack = self.written_limit(book, so, mkt.tick_size)
+                    if wl is not None:
+                        res.count("fills_checked_against_written_limit")
+                        if sign * (log.price - wl) > slack:
+                            res.violation("b", mech, dict(witness(), written_limit=wl, accepted_limit=so.price,
+                                                          order_id=so.oid))
+                            bad = True
             prices.add(log.price)
         for oid, v in used.items():
             if v > pre[oid][1]:
